@@ -132,7 +132,7 @@ pub fn gen_hp(seed: u64, profile: &str, tier: Tier) -> HP {
         codec = if s.chance(1, 2) { CodecKind::Bincode } else { CodecKind::Postcard };
     }
     let wild = profile == "C06";
-    let mut setup = Setup { id: SimId::new(1, OWN_GEN), cfg: Config::simple(), codec, policy, hcfg: gen_hcfg(&mut s), rng_seed: s.next() };
+    let mut setup = Setup { id: SimId::new(1, OWN_GEN), cfg: Config::simple(), codec, policy, hcfg: gen_hcfg(&mut s), rng_seed: s.next(), acc_twin: false };
     let min_mps = min_packet(&setup);
     setup.cfg = gen_config(&mut s, min_mps, wild);
     let long = matches!(tier, Tier::Thorough) && s.chance(1, 4);
@@ -183,6 +183,9 @@ pub fn gen_hp(seed: u64, profile: &str, tier: Tier) -> HP {
             weights[8] = weights[8].max(5) * 2;
         }
         _ => {}
+    }
+    if profile == "C08" {
+        setup.acc_twin = s.chance(1, 2);
     }
     HP { profile: profile.to_string(), setup, addrs: s.range(3, 6) as u16, steps, timer_mode, weights, wild_config: wild }
 }
